@@ -1,4 +1,76 @@
-"""C17 — not built yet."""
+"""C17 — dumping an AST to IDL text and parsing it back gives the same IDL (DESIGN.md §5.17)."""
+import json, os
+from vlib import core
+
+THEOREMS = ["Props.C17." + t for t in [
+    "generated_cfg_is_std", "amp_escape_inverse", "amp_escape_inverse_twice_not", "dump_literal_text", "literal_roundtrip",
+    "literal_roundtrip_iff_safe_witnesses", "annotation_roundtrip", "annotation_text_roundtrip", "numeric_roundtrip_int",
+    "numeric_roundtrip_double", "constvalue_roundtrip", "dump_parse_partial", "dump_accepted_partial"]]
+
+PARTIAL = [
+    "literal_roundtrip: only for DumpSafe literals (no `\\\"`, no `##34;`, no `#OUTQUOTES`, not ending in a backslash); each excluded shape has a decided counterexample",
+    "dump_parse_partial: composed by theorem for constant values (all six kinds, nested), annotation lists, literals and numbers; "
+    "headers, typedef/const/enum/struct-like/service layouts are tied by whole-file byte correspondence and judged by the oracle only",
+    "dump_accepted_partial: acceptance by the reader model of the dumped fragments; acceptance by the semantic checker is judged by the oracle only",
+    "numeric_roundtrip_double: FormatFloat/ParseFloat are parameters with the assumed shortest-round-trip and shape properties; integral doubles >= 2^63 are a decided counterexample",
+]
+
+
 def run(ctx):
-    print("C17: no check built yet")
-    return 2
+    exe = ctx.go_build("c17")
+    ctx.partial += PARTIAL
+    ctx.trusted += ["translator harness/cmd/c17 extract (go/ast over tool/trimmer/dump/dump.go: constants of the escaping pipeline in source order; "
+                    "parser/thrift.peg rules Literal/EscapeLiteralChar/IntConstant/DoubleConstant/Annotation(s)/ConstValue/Identifier compared with the text the reader model follows)",
+                    "correspondence harness harness/cmd/c17 run vs tv_c17 (whole-file byte equality of dump.DumpIDL and Dump.dump; parser vs reader model on literals, numbers, annotation lists)",
+                    "oracle harness/cmd/c17 (AST comparison after parser.ParseString(dump.DumpIDL(ast)); semantic.CheckAll/ResolveSymbols before and after; tool/trimmer binary with -r)"]
+    ctx.assumptions += [
+        "html.UnescapeString on a buffer in which every '&' is followed by 'amp;' replaces each '&amp;' by '&' left to right (modelled only there; checked by U ops)",
+        "strconv.FormatFloat(x,'f',-1,64) has the shape -?digits(.digits)? and strconv.ParseFloat of it returns x (parameters ff/pf of the model; instances supplied by the harness per case)",
+        "the parser's []rune buffer is modelled byte-wise: valid UTF-8 only (bytes >= 0x80 are never quote, backslash, digit or letter)",
+        "strings.TrimSpace emptiness in printComment modelled for ASCII white space",
+        "a double re-read as an integer literal counts as equal when it converts to the same float64 (sign of zero ignored)",
+        "comments (ReservedComments) are written and byte-compared in the correspondence but not part of the AST equality of the oracle",
+    ]
+    if exe:
+        if ctx.replay:
+            rc, out = core.sh([exe, "replay", "-repo", core.REPO, "-file", ctx.replay])
+            fails = json.loads(out.strip().split("\n")[-1]) if rc == 0 else []
+            for f in fails:
+                ctx.add_violation(f["key"], f["what"], f["input"], f["expected"], f["observed"])
+            ctx.cov["evaluations"] = 1
+            return ctx.finish(rule="replay of one IDL source")
+        rc, gen = core.sh([exe, "extract", "-repo", core.REPO])
+        if rc != 0:
+            ctx.obligation("translator:c17-extract", False, gen[-2000:])
+        else:
+            ctx.obligation("translator:c17-extract", True)
+            ctx.write_generated("C17", gen)
+    built = ctx.lake_build(["ThriftVerif.Props.C17"], "lake-build:Props.C17")
+    drv = ctx.lake_build(["tv_c17"], "lake-build:tv_c17")
+    if built:
+        ctx.audit("C17", THEOREMS)
+        if ctx.tier == "thorough":
+            ctx.leanchecker(["ThriftVerif.Props.C17"])
+    if exe:
+        trimmer = None
+        try:
+            trimmer = ctx.go_build_repo("./tool/trimmer", "trimmer")
+        except core.MachineryError as e:
+            ctx.obligation("build:tool/trimmer", False, str(e)[-1500:])
+        cmd = [exe, "run", "-repo", core.REPO, "-dir", ctx.work, "-seed", str(ctx.seed), "-tier", ctx.tier]
+        if trimmer:
+            cmd += ["-trimmer", trimmer]
+        rc, out = core.sh(cmd, timeout=3000)
+        if rc != 0:
+            raise core.MachineryError("c17 run failed: " + out[-2000:])
+        st = json.load(open(os.path.join(ctx.work, "stats.json")))
+        ctx.cov.update(evaluations=st["evaluations"], distinct_nontrivial=st["distinct_nontrivial"], samples=st["samples"],
+                       distribution=st["distribution"], exhaustive=False)
+        for f in (st.get("oracle_failures") or []):
+            ctx.add_violation(f["key"], f["what"], f["input"], f["expected"], f["observed"])
+        if drv:
+            model = ctx.run_model("tv_c17", os.path.join(ctx.work, "ops.txt"))
+            ctx.diff_lines("c17", os.path.join(ctx.work, "ops.txt"), os.path.join(ctx.work, "impl.txt"), model)
+    return ctx.finish(rule="F ops: generated IDL programs parsed by the real parser (plus hand-built ASTs outside the parser's range), whole dumped file compared byte for byte; "
+                           "R/N/A ops: literal, number and annotation-list texts read by the real parser vs the reader model; U ops: html.UnescapeString on escaped images. "
+                           "non-trivial: F always, R/N when the text is accepted, A with >= 2 pairs, U with an '&'; distinct by sha256 of the op line")
